@@ -2,7 +2,7 @@
 from world import amounts, specials
 
 ID = "C04"
-LEAN_MODULES = ["QtyModel.Props.C04", "QtyModel.Props.C04RoundTrip", "QtyModel.Props.Backends", "QtyModel.Props.OracleSound", "QtyModel.Props.TieTemplates", "QtyModel.Props.OracleSoundC04"]
+LEAN_MODULES = ["QtyModel.Props.C04", "QtyModel.Props.C04RoundTrip", "QtyModel.Props.Backends", "QtyModel.Props.OracleSound", "QtyModel.Props.TieTemplates", "QtyModel.Props.OracleSoundC04", "QtyModel.Props.Bridge2"]
 HARNESS_GROUPS = ('g_derived',)
 # kinds of difference in the macro-level correspondence (tools/macrofront.py) that are failing inputs here
 MACRO_PARTS = ("impls",)
